@@ -9,6 +9,7 @@ with the ground-truth totals known from the construction.
 from __future__ import annotations
 
 import asyncio
+from datetime import timedelta
 from typing import Any
 
 from hypothesis import strategies as st
@@ -110,6 +111,7 @@ def strategy(tier: str, pid: str = "C12") -> st.SearchStrategy[Any]:
         # third phase: one meter delivers missing values for five ticks; a formula may then emit None (no usable
         # fallback) or the true total (fallback components), never anything else
         "missing_meter": st.one_of(st.none(), st.integers(0, 7)),
+        "early_mask": st.one_of(st.just([False]), st.lists(st.booleans(), min_size=5, max_size=5)),
         "top": top,
         "subset": st.lists(st.booleans(), min_size=12, max_size=12),
     })
@@ -301,6 +303,22 @@ def run_case(case: Any, pid: str) -> Verdict:
                     requests.append(await asyncio.wait_for(sub_rx.receive(), timeout=0.001))
                 except asyncio.TimeoutError:
                     break
+            # staggered start: some component streams already carry an older sample (other values) when the engines
+            # begin, so their first evaluation has to synchronise the inputs to the common timestamp
+            emask = case.get("early_mask") or [False]
+            if any(emask):
+                v.labels.add("component_streams_start_at_different_ticks")
+                val_e, _ = g.assign(1)
+                done_e = set()
+                for k_e, req in enumerate(sorted(requests, key=lambda r: r.get_channel_name())):
+                    name = req.get_channel_name()
+                    if name in done_e or not emask[k_e % len(emask)]:
+                        continue
+                    done_e.add(name)
+                    value = val_e.get(req.component_id)
+                    await registry.get_or_create(Sample[Quantity], name).new_sender().send(
+                        Sample(world.T0 - timedelta(seconds=1), None if value is None else Quantity(value + 7.0)))
+                await world.settle(2)
             for which in (0, 1):
                 val, load = g.assign(which)
                 truth = {
@@ -335,8 +353,13 @@ def run_case(case: Any, pid: str) -> Verdict:
                 for name, fb, eng, rx in engines:
                     try:
                         out = await asyncio.wait_for(rx.receive(), timeout=0.01)
+                        while out.timestamp < ts:   # outputs for the older samples of a staggered start
+                            out = await asyncio.wait_for(rx.receive(), timeout=0.01)
                     except Exception:  # pylint: disable=broad-except
                         v.fail(f"{name} (fallback={fb}): no output for tick {which}; formula {eng}")
+                        continue
+                    if out.timestamp != ts:
+                        v.fail(f"{name} (fallback={fb}): output stamped {out.timestamp} while the inputs of {ts} were fed")
                         continue
                     if out.value is None:
                         v.fail(f"{name} (fallback={fb}): output None with all inputs valid; formula {eng}")
